@@ -135,6 +135,12 @@ def check_kinetics(ev, op, m, phys, viol, stats, tag, masked):
         if np.any(np.abs(g - fm) > 1e-10 * sc + 1e-300):
             viol.append({"oracle": tag + ".dxdtf-value", "detail": "make_dxdtf()(t, x) = %s, the rate law gives %s" % (
                 list(g), list(fm))})
+        elif "dxdtf_again" in ev:
+            g2 = np.array(ev["dxdtf_again"]) * fU
+            if np.any(np.abs(g2 - fm) > 1e-10 * sc + 1e-300):
+                viol.append({"oracle": tag + ".dxdtf-value",
+                             "detail": "the function returned by make_dxdtf() gives %s on a later call at the same state, the "
+                                       "rate law (and its own first call) gives %s" % (list(g2), list(fm))})
 
 
 def check(case, results):
